@@ -28,10 +28,13 @@ type c10BuilderCase struct {
 }
 
 type c10BuilderObs struct {
-	Note   string   `json:"note,omitempty"`
-	States []string `json:"states"` // session states the server sent in cleartext, in order
-	AuthN  int      `json:"authCalls"`
-	EstN   int      `json:"established"`
+	Note      string   `json:"note,omitempty"`
+	States    []string `json:"states"`              // session states the server sent in cleartext, in order
+	OfferEnc  []string `json:"offerEnc,omitempty"`  // encryptionOptions of the server's first negotiating envelope
+	OfferComp []string `json:"offerComp,omitempty"` // compressionOptions of it
+	Offered   bool     `json:"offered,omitempty"`
+	AuthN     int      `json:"authCalls"`
+	EstN      int      `json:"established"`
 }
 
 func configureOther() {
@@ -117,6 +120,15 @@ func runC10Builder(c *c10BuilderCase) *c10BuilderObs {
 	send(`{"state":"new"}`)
 	m := read()
 	sid, _ := m["id"].(string)
+	if st, _ := m["state"].(string); st == "negotiating" {
+		obs.Offered = true
+		for _, x := range asStrings(m["encryptionOptions"]) {
+			obs.OfferEnc = append(obs.OfferEnc, x)
+		}
+		for _, x := range asStrings(m["compressionOptions"]) {
+			obs.OfferComp = append(obs.OfferComp, x)
+		}
+	}
 	name := "alice"
 	auth := `"scheme":"plain","authentication":{"password":"c2VjcmV0"}`
 	if c.Scheme == "guest" {
@@ -181,6 +193,50 @@ func TestC10Builder(t *testing.T) {
 		}
 		o := &Outcome{}
 		judgeC10Builder(c, runC10Builder(c), o)
+		rec.Check(rt, c, o)
+	})
+}
+
+func asStrings(v interface{}) []string {
+	l, _ := v.([]interface{})
+	var out []string
+	for _, x := range l {
+		if t, ok := x.(string); ok {
+			out = append(out, t)
+		}
+	}
+	return out
+}
+
+// TestC09Builder: the same builder-built server, judged on what it offers: exactly the configured options the transport
+// supports - EncryptionOptions(TLS) means tls and nothing else, whatever the defaults were and whatever other builders do.
+func TestC09Builder(t *testing.T) {
+	rec := NewRecorder("C09", "TestC09Builder")
+	rapid.Check(t, func(rt *rapid.T) {
+		c := &c10BuilderCase{
+			Comp:        rapid.SampledFrom([][]string{nil, {"none"}, {"none", "gzip"}}).Draw(rt, "comp"),
+			OtherBefore: rapid.Bool().Draw(rt, "otherBefore"),
+			OtherAfter:  rapid.Bool().Draw(rt, "otherAfter"),
+			PeerChoice:  rapid.SampledFrom([]string{"none", "tls-no-handshake"}).Draw(rt, "peer"),
+			Scheme:      "guest",
+		}
+		obs := runC10Builder(c)
+		o := &Outcome{}
+		o.Class("builder-entry-point/offer")
+		switch {
+		case strings.HasPrefix(obs.Note, "skip"):
+			o.Class("skipped")
+		case !obs.Offered:
+			o.Fail("C09/builder/no-offer", "a server built with EncryptionOptions(TLS) on a TLS-capable TCP listener did not start with its negotiation options (states %v)", obs.States)
+		default:
+			o.NonTrivial = true
+			if len(obs.OfferEnc) != 1 || obs.OfferEnc[0] != "tls" {
+				o.Fail("C09/builder/offer-not-the-configured-list", "configured EncryptionOptions(TLS), offered %v", obs.OfferEnc)
+			}
+			if len(obs.OfferComp) != 1 || obs.OfferComp[0] != "none" {
+				o.Fail("C09/builder/compression-offer", "configured compression %v on a transport that supports none only, offered %v", c.Comp, obs.OfferComp)
+			}
+		}
 		rec.Check(rt, c, o)
 	})
 }
